@@ -55,6 +55,10 @@ def drive(ctx):
             ctx.emit("native_acc", {}, [mk_dt(NAIVE, w, k % 2)])
             w2 = i3_to_wall(sec_to_i3(s + rnd.randrange(-10 ** 6, 10 ** 6), 5))
             ctx.emit("native_cmp", {}, [mk_dt(NAIVE, w, 0), mk_dt(NAIVE, w2, 0)])
+            # a naive value against an aware one, either way round
+            aw = mk_dt({"n": rnd.choice(pool), "fo": 0} if k % 2 else UTCZ, w2, 0)
+            ctx.emit("native_cmp", {}, [mk_dt(NAIVE, w, 0), aw])
+            ctx.emit("native_cmp", {}, [aw, mk_dt(NAIVE, w, 0)])
         elif m == 3:
             ctx.emit("native_acc", {}, [mk_dt({"n": "", "fo": rnd.choice(FIXED_OFFSETS + [rnd.randrange(-86399, 86400)])}, w, 0)])
         else:
